@@ -37,16 +37,16 @@ def _tables(ctx, exe):
 
 def _input_key(ln):
     """the input part of an event (everything before the first output field)"""
-    k = ln[6:8]
+    k = ln[6:ln.find('"', 6)]
     cut = {"gd": ',"np":', "gq": ',"i":[', "pl": ',"l":[', "nd": ',"pr":[', "dp": ',"olg":', "ns": ',"out":[', "di": ',"pli":',
-           "ne": ',"ix":[', "pa": ',"v":'}.get(k)
+           "ne": ',"ix":[', "pa": ',"v":', "ne_abort": ',"status":'}.get(k)
     j = ln.find(cut) if cut else -1
     return ln[:j] if j > 0 else ln
 
 
 def _nontrivial(ln):
     """counting rule only (no judgement): does the case exercise more than the identity path?"""
-    k = ln[6:8]
+    k = ln[6:ln.find('"', 6)]
     try:
         e = json.loads(ln)
     except ValueError:
@@ -132,20 +132,13 @@ def _confirm(ctx, exe, env, ev_line, tag):
     with open(src, "w") as f:
         f.write(ev_line + "\n")
     out = ctx.path("rej_%s_rerun.ndjson" % tag)
-    rc, err = vf.run_hx(_exe_for(exe, ev_line), ["replay"], out, stdin_path=src, timeout=300)
+    rc, err = vf.run_hx(exe, ["replay"], out, stdin_path=src, timeout=300)
     if rc != 0:
         return True, src, "(harness aborted rc=%d on the re-run: %s)" % (rc, err[-400:])
     if vf.count_lines(out) == 0:
         return True, src, "(the harness refused the recorded inputs)"
     rej, _ = vf.validate_cases(ctx, "SilkTrace", "SilkTrace.cfg", out, "C18 confirm " + tag, nparts=1, heap="2g", extra_env=env)
     return bool(rej), src, vf.file_line(out, 1)
-
-
-def _exe_for(exe, ev_line):
-    """silk_NLSF_encode events are produced (and re-executed) by the build without sanitizers/assertions, see run()"""
-    if ev_line.startswith('{"k":"ne"'):
-        return vf.build_hx(vf.build_variant("prod"), "silk.c")
-    return exe
 
 
 def _state_field(dump, name):
@@ -166,7 +159,7 @@ def run(ctx):
                 "(b) every lag index in -40..max+40 x contour x {8,12,16} kHz x {2,4} sub-frames, and the lag-index accumulator over a "
                 "3-frame packet; (c) both NLSF codebooks x all 32 first-stage vectors x residual families (zero, all/alternating/paired/"
                 "single/split extremes at +-10,+-4,+-1; all sign patterns {-10,10}^10 for NB/MB; for WB sign patterns on each half and on "
-                "even/odd coefficients [both tiers], and in the thorough tier all {-10,10}^16 for every 4th WB first-stage vector plus {-10,0,10}^10 for every 8th NB/MB one (which ones: VERIF_SEED % 8)). "
+                "even/odd coefficients [both tiers], and in the thorough tier all {-10,10}^16 for every 8th WB first-stage vector plus {-10,0,10}^10 for every 8th NB/MB one (which ones: VERIF_SEED % 8)). "
                 "implementation: hx_silk records silk_gains_dequant (all 6720 single steps, random chains), silk_gains_quant+dequant "
                 "(raw-gain grid, random frames), silk_decode_pitch (whole index domain), silk_NLSF_decode+NLSF2A (first-stage x extremes, "
                 "random residuals in +-10), silk_decode_parameters (random chained frames), silk_decode_indices on random range-coder input "
@@ -241,21 +234,17 @@ def run(ctx):
     if tier == "quick":
         jobs = [("gains", [s, 2000]), ("gquant", [s + 1, 4000]), ("pitch", []), ("nlsf", [s + 2, 6, 0]),
                 ("stab", [s + 3, 3000]), ("dparams", [s + 4, 250]), ("indices", [s + 5, 300]),
-                ("pitchenc", [s + 6, 4000]), ("nlsfenc", [s + 7, 3000])]
+                ("pitchenc", [s + 6, 4000]), ("nlsfenc", [s + 7, 2000])]
     else:
-        jobs = [("gains", [s, 60000]), ("gquant", [s + 1, 120000]), ("pitch", []), ("nlsf", [s + 2, 150, 3000]),
-                ("nlsf", [s + 12, 150, 3000]), ("stab", [s + 3, 60000]), ("dparams", [s + 4, 4000]), ("dparams", [s + 14, 4000]),
-                ("indices", [s + 5, 6000]), ("indices", [s + 15, 6000]),
-                ("pitchenc", [s + 6, 200000]), ("nlsfenc", [s + 7, 60000])]
-
-    # silk_NLSF_encode is driven in the build without sanitizers/assertions: its rate-distortion bookkeeping
-    # (silk_NLSF_del_dec_quant) overflows 32 bits for survivors far from the input, which is outside this property
-    exe_plain = vf.build_hx(vf.build_variant("prod"), "silk.c")
+        jobs = [("gains", [s, 30000]), ("gquant", [s + 1, 100000]), ("pitch", []), ("nlsf", [s + 2, 150, 2000]),
+                ("nlsf", [s + 12, 150, 2000]), ("stab", [s + 3, 50000]), ("dparams", [s + 4, 3000]), ("dparams", [s + 14, 3000]),
+                ("indices", [s + 5, 4000]), ("indices", [s + 15, 4000]),
+                ("pitchenc", [s + 6, 100000]), ("nlsfenc", [s + 7, 8000]), ("nlsfenc", [s + 17, 8000])]
 
     def gen(job):
         i, (cmd, args) = job
         out = ctx.path("t_%s_%d.ndjson" % (cmd, i))
-        rc, err = vf.run_hx(exe_plain if cmd == "nlsfenc" else exe, [cmd] + args, out, timeout=1500)
+        rc, err = vf.run_hx(exe, [cmd] + args, out, timeout=1500)
         return cmd, args, out, rc, err
     outs = vf.parallel(gen, list(enumerate(jobs)))
     lines = []
@@ -274,6 +263,11 @@ def run(ctx):
         lines += ls
         os.remove(out)
     ctx.notes["events_per_driver"] = per_kind
+    n_ne = sum(1 for x in lines if x.startswith('{"k":"ne",'))
+    n_ne_abort = sum(1 for x in lines if x.startswith('{"k":"ne_abort"'))
+    ctx.notes["nlsf_encode_inputs_outside_arithmetic_domain"] = n_ne_abort      # skipped: the quantiser's 32-bit RD sums overflowed
+    if n_ne < 4 * n_ne_abort and not ctx.violations:
+        raise vf.Infra("silk_NLSF_encode aborted on %d of %d synthetic inputs: driver inputs no longer inside the quantiser's domain" % (n_ne_abort, n_ne + n_ne_abort))
     if per_kind.get("gains", 0) < 6720 or per_kind.get("pitch", 0) != n_lag:
         if not ctx.violations:
             raise vf.Infra("harness produced %s events (expected >= 6720 gain steps and %d pitch cases)" % (per_kind, n_lag))
@@ -351,7 +345,7 @@ def replay(ctx, exe, env):
             ctx.violation("model invariant %s still violated:\n%s" % (r.violation, r.state_dump[:1000]), replay_src=ctx.replay)
         return
     out = ctx.path("replay.ndjson")
-    rc, err = vf.run_hx(_exe_for(exe, first), ["replay"], out, stdin_path=ctx.replay, timeout=600)
+    rc, err = vf.run_hx(exe, ["replay"], out, stdin_path=ctx.replay, timeout=600)
     if rc != 0:
         ctx.violation("replay aborted rc=%d %s" % (rc, err[-800:]), replay_src=ctx.replay)
         return
@@ -395,6 +389,6 @@ META = dict(
                 "any 0..16); the LTP filter and LTP-scale tables. The NLSF residual space is covered by families and random samples, not "
                 "exhaustively (21^10 / 21^16 vectors per first-stage entry); the LPC conversion is checked on recorded cases only, not in the "
                 "exhaustive runs. The encoder-side gain model (which index it picks) and the stabiliser on synthetic vectors are reference "
-                "sub-models: a mismatch is SPEC-DRIFT. silk_NLSF_encode is driven in the build without sanitizers (its rate-distortion sums "
-                "overflow for far survivors). Trusted: TLC, the Json module, my reading of RFC 6716 4.2.7 (no RFC text offline)."),
+                "sub-models: a mismatch is SPEC-DRIFT. silk_NLSF_encode is judged only on synthetic inputs for which its 32-bit rate-distortion "
+                "sums stay in range (decided by running it under UBSan/assertions in a child process; the others are counted and skipped). Trusted: TLC, the Json module, my reading of RFC 6716 4.2.7 (no RFC text offline)."),
 )
